@@ -32,7 +32,7 @@ EXC = {
     "ThresholdVerificationError": "EThreshold", "LayoutExpiredError": "EExpired",
     "LinkNotFoundError": "ELinkNotFound", "PrefixError": "EPrefix", "ValueError": "EValueError",
     "KeyError": "EKeyError", "InvalidMetadata": "EInvalidMetadata", "TypeError": "ETypeError",
-    "NotImplementedError": "ENotImplemented",
+    "NotImplementedError": "ENotImplemented", "KeyExpirationError": "EKeyExpired",
 }
 TYPES = {"str": "TStr", "int": "TInt", "list": "TList", "dict": "TDict", "bool": "TBool"}
 IGNORED_CALL_PREFIXES = ("LOG.", "logger.", "logging.")
